@@ -87,6 +87,10 @@ func checkHostArgs(p *core.Prog, r *core.Report, rule string) {
 				bad += "the key handed to the store is not the intrinsic's key parameter; "
 			}
 			if isRead {
+				// the six read methods share their signatures pairwise: the one called is the one the intrinsic is named after
+				if want := strings.TrimPrefix(fn.Name(), "Do"); c.Call.Method.Name() != want {
+					bad += "the intrinsic answers with " + c.Call.Method.Name() + " instead of " + want + "; "
+				}
 				// results returned as they are
 				okRet := false
 				core.Instrs(fn, func(in ssa.Instruction) {
